@@ -115,13 +115,22 @@ Range(i) ==
   /\ exp' = RuleResult("walk", iters[i].root)
   /\ UNCHANGED <<store, iters>>
 
+\* a range that is left after its first visit (break): one visit; the iterator value remains usable
+RangeBreak(i) ==
+  /\ Iters
+  /\ hist' = Append(hist, Call("RangeBreak", <<>>, i, ""))
+  /\ idx' = IF ResetIdx THEN 0 ELSE idx
+  /\ res' = [None EXCEPT !.k = "walk", !.walk = SubSeq(CodeResult("walk", iters[i].root).walk, 1, 1)]
+  /\ exp' = [None EXCEPT !.k = "walk", !.walk = SubSeq(RuleResult("walk", iters[i].root).walk, 1, 1)]
+  /\ UNCHANGED <<store, iters>>
+
 Next ==
   /\ Len(hist) < MaxCalls
   /\ \/ \E nm \in ApiNames : NewRoot(nm)
      \/ \E p \in 1..Len(store), nm \in ApiNames : Add(p, nm)
      \/ \E k \in Kinds, n \in (IF BadArgs THEN 0..Len(store) ELSE {i \in 1..Len(store) : store[i].hier = 1}) : Op(k, n)
      \/ \E n \in 1..Len(store) : Open(n)
-     \/ \E i \in 1..Len(iters) : Range(i)
+     \/ \E i \in 1..Len(iters) : Range(i) \/ RangeBreak(i)
 
 Spec == Init /\ [][Next]_avars
 
